@@ -40,17 +40,20 @@ per-flag vocabulary (`C05X_tree_vocab`).  Here the rest of C05 is derived:
 4. **fenced code blocks** — `C05X_partial_fenced`: with fenced_code the raw-HTML stash also holds the `<pre><code>`
    strings of the fenced blocks (`C05X_stash_shape`); `RawHtmlPostprocessor` puts them back, as a whole `<p>…</p>` or
    in the middle of a text.  The output is still accepted by the strict reader and lies in the vocabulary enlarged by
-   `pre`, `code`, `class`, `id`, under TWO residual, decidable hypotheses: no ATTRIBUTE value of the tree holds the
-   placeholder of a fenced block (`hattr`, necessary: `Lemmas/VocabXWFFenceFinish.lean` has the counterexample tree;
-   on the real code the placeholder of a fenced block is a block of its own and only ever the text of a `p`: 4600
-   fenced documents, 0 violations) and no ampersand substitute (`hamp`).  A placeholder anywhere in a text or tail
-   is fine.
+   `pre`, `code`, `class`, `id`, under ONE residual, decidable hypothesis (`C05X_fenced`): no ATTRIBUTE value of the
+   tree holds the placeholder of a fenced block (`hattr`, necessary: `Lemmas/VocabXWFFenceFinish.lean` has the
+   counterexample tree; on the real code the placeholder of a fenced block is a block of its own and only ever the
+   text of a `p`: 4600 + 60 000 fenced documents, 0 violations).  A placeholder anywhere in a text or tail is fine.
+   The ampersand substitute is excluded for every flag set, fenced blocks included (`C05X_no_amp_substitute_all`:
+   the block stage on a text with placeholder blocks, via the three string classes of
+   `Lemmas/F/PlaceholdersXTBlock*.lean`).  `C05X_partial_fenced`: the statement with both hypotheses spelt out.
 
 Only property statements live here; proofs in `MdVerif/Lemmas/VocabXWF*.lean`.  Core Lean only.
 -/
 import MdVerif.Lemmas.VocabXWFPipe4
 import MdVerif.Lemmas.VocabXWFConv
 import MdVerif.Lemmas.VocabXWFAmpPipe
+import MdVerif.Lemmas.VocabXWFAmpFPipe
 import MdVerif.Lemmas.VocabXWFFenceConv
 import MdVerif.Props.C14X
 
@@ -420,6 +423,34 @@ theorem C05X_upto_ampsub_fenced (x : Exts) (hal : x.attrList = false) (hadm : x.
   VocabXFence.convertX_shape_fenced x cfg src out
     (fun u html h => VocabXWF.keysNamed_of_qtX x hal (treeX_NI x cfg src u html h))
     (fun u html h => VocabXWF.treeX_WF' x hadm cfg src u html h) hattr hc
+
+/-- **No ampersand substitute in the serialised tree, every flag set** — fenced_code with fenced blocks included
+    (the text handed to the block parser then holds the raw-HTML placeholders `STX wzxhzdk:n ETX`, each a block of its
+    own, which only ever meet `EmptyBlockProcessor` and `ParagraphProcessor`); `0 < tab_length` is needed with
+    fenced_code only. -/
+theorem C05X_no_amp_substitute_all (x : Exts) (hadm : x.admonition = false) (cfg : Pipeline.Cfg)
+    (htab : x.fencedCode = true → 0 < cfg.tab) (hesc : AmpFull.EscTwo cfg.esc) (src : Str) (u : Node)
+    (html : List Str) (h : treeX x cfg src = .ok u html) (hnames : NI keysNamed u) :
+    contains (inner cfg.fmt u) Post.ampSubstitute = false :=
+  VocabXAmp.treeX_no_amp_all x cfg htab (VocabXAmp.escTwo_escX x hesc) src u html h
+    (C05X_tree_gnl x hadm cfg src u html h hnames)
+
+/-- **C05 with fenced code blocks, one residual hypothesis.**  For every set of extensions without attr_list and
+    admonition (fenced_code and all the others: any), every configuration with `0 < tab_length` whose escapable
+    characters have two-digit codes and every source without `<` such that (`hattr`) no attribute value of the tree holds
+    the raw-HTML placeholder of a fenced block: whatever `convertX` returns is accepted by the strict reader and
+    consists of text and elements of the vocabulary of the enabled extensions enlarged by `pre`, `code`, `class`,
+    `id`. -/
+theorem C05X_fenced (x : Exts) (hal : x.attrList = false) (hadm : x.admonition = false)
+    (cfg : Pipeline.Cfg) (htab : 0 < cfg.tab) (hesc : AmpFull.EscTwo cfg.esc) (src out : Str) (hlt : '<' ∉ src)
+    (hattr : ∀ u html text stash, treeX x cfg src = .ok u html → prepareX x cfg src = .ok (text, stash) →
+      NoFencedInAttrs stash.length u)
+    (hc : convertX x cfg src = .ok out) :
+    ∃ forest, readForest cfg.fmt out = some forest ∧
+      RXL (tagOkF (tagOkX x)) (keyOkF (keyOkX x)) forest = true :=
+  C05X_partial_fenced x hal hadm cfg src out hlt hattr
+    (fun u html h => C05X_no_amp_substitute_all x hadm cfg (fun _ => htab) hesc src u html h
+      (VocabXWF.keysNamed_of_qtX x hal (treeX_NI x cfg src u html h))) hc
 
 /-- fenced_code with tables, footnotes, abbr, toc: a block with a language, an id and a class, a `~~~` block, an
     indented fence inside a footnote (no fenced block: a code span), entities -/
